@@ -1095,4 +1095,3 @@ func run(t *vlib.T) {
 	phaseB()
 	phaseA(true)
 }
-
